@@ -21,7 +21,9 @@ Inductive case :=
 | CCache2 (evs0 evs1 : list ev) (d0 e0 d1 e1 : list Keys.obs)
 | CBuffer (timeout : option N) (script : list bufev) (direct deco ctor : list (N * list nat))
 | CBatcher (cfg : ocfg) (script : list bev) (direct deco ctor : btrace) (cross : nat)
-| CLoops (cfg : ocfg) (plan : list lev) (observed : list (nat * btrace)) (cross : nat).
+(* solo : for every loop, the trace of THAT loop's part of the plan run alone against the class
+   itself (one AsyncBackgroundBatcher object, one loop) — what "its own independent batching" means *)
+| CLoops (cfg : ocfg) (plan : list lev) (observed solo : list (nat * btrace)) (cross : nat).
 
 (* ---- equalities ----------------------------------------------------------- *)
 Definition nsame (a b : list nat) : bool := nsubset a b && nsubset b a.
@@ -56,7 +58,7 @@ Definition agree (c : case) : bool :=
   | CBatcher cfg sc d1 d2 d3 cross =>
       let m := trace_of (brun (resolve cfg) sc) in
       btrace_eqb m d1 && btrace_eqb m d2 && btrace_eqb m d3 && Nat.eqb cross 0
-  | CLoops cfg plan observed cross =>
+  | CLoops cfg plan observed solo cross =>
       let r := loops_model cfg plan in
       forallb (fun lt => match final_of bst (fst lt) r with
                          | Some s => btrace_eqb (trace_of s) (snd lt)
@@ -126,9 +128,14 @@ Definition ok (c : case) : bool :=
   | CBatcher cfg sc d1 d2 d3 cross =>
       btrace_eqb d1 d2 && btrace_eqb d3 d2 && Nat.eqb cross 0 &&
       batcher_sane (resolve cfg) (call_keys sc) d2
-  | CLoops cfg plan observed cross =>
+  | CLoops cfg plan observed solo cross =>
       Nat.eqb cross 0 &&
-      forallb (fun lt => batcher_sane (resolve cfg) (keys_on (fst lt) plan) (snd lt)) observed
+      forallb (fun lt => batcher_sane (resolve cfg) (keys_on (fst lt) plan) (snd lt)) observed &&
+      (* independence: every loop behaves exactly as if it were the only one *)
+      Nat.eqb (length observed) (length solo) &&
+      forallb (fun lt => match assoc (fst lt) solo with
+                         | Some t => btrace_eqb (snd lt) t
+                         | None => false end) observed
   end.
 
 (* ---- non-trivial: the script discriminates the configuration -------------- *)
@@ -148,7 +155,7 @@ Definition nontrivial (c : case) : bool :=
       existsb (fun d => match d with Some _ => true | None => false end) (snd d2) &&
       (ocfg_is_default cfg ||
        negb (btrace_eqb (trace_of (brun (resolve cfg) sc)) (trace_of (brun default_cfg sc))))
-  | CLoops cfg plan observed cross =>
+  | CLoops cfg plan observed solo cross =>
       2 <=? length (filter (fun lt => match fst (snd lt) with [] => false | _ => true end) observed)
   end.
 
